@@ -469,6 +469,9 @@ func (cr *checkRun) writeReplay(o *Obligation) string {
 		"solver":     map[string]interface{}{"name": o.Solver, "answer": o.Status, "seconds": o.Seconds, "output": model},
 		"replay":     map[string]interface{}{"ran": false, "confirmed": false, "note": "no-failing-input-found: the obligation is discharged on the unchanged tree and is not discharged on this tree"},
 	}
+	if o.replay != nil {
+		doc["replay"] = o.replay
+	}
 	if o.Query != "" {
 		q := filepath.Join(dir, name+".smt2")
 		if data, err := os.ReadFile(o.Query); err == nil {
@@ -533,6 +536,13 @@ func (cr *checkRun) report() int {
 	// remove stale replay files of this property
 	os.RemoveAll(filepath.Join(e.outDir, "replay", cr.prop))
 	knownHit := map[int]bool{}
+	vcOf := map[*Obligation]*VC{}
+	for _, vc := range cr.vcs {
+		for _, o := range vc.obls {
+			vcOf[o] = vc
+		}
+	}
+	replays := 0
 	for _, o := range all {
 		kinds[o.Kind]++
 		if o.Status == "discharged" {
@@ -563,9 +573,21 @@ func (cr *checkRun) report() int {
 		}
 		violations++
 		exit = 1
+		var rr *replayResult
+		if vc := vcOf[o]; vc != nil && replays < 6 {
+			if rr = cr.tryReplay(o, vc); rr != nil && rr.Ran {
+				replays++
+			}
+		}
+		o.replay = rr
 		path := cr.writeReplay(o)
 		fmt.Printf("FAILED %s %s [%s] %s\n        %s\n", o.Kind, o.Name, o.Status, o.Pos, o.Clause)
-		fmt.Printf("VIOLATION property=%s replay=%s no-failing-input-found\n", cr.prop, path)
+		if rr != nil && rr.Confirmed {
+			fmt.Printf("        replayed on the real code: %s; inputs %v; observed %v\n", rr.Note, rr.Inputs, rr.Observed)
+			fmt.Printf("VIOLATION property=%s replay=%s\n", cr.prop, path)
+		} else {
+			fmt.Printf("VIOLATION property=%s replay=%s no-failing-input-found\n", cr.prop, path)
+		}
 	}
 	if len(all) == 0 || len(cr.targets) == 0 && len(cr.extraObl) == 0 && cr.nLemmas == 0 {
 		o := &Obligation{Name: cr.prop + "#no-obligations", Kind: "vacuity", Status: "failed", Clause: "the check generated no obligations (contracts missing or stale)"}
